@@ -940,6 +940,21 @@ def _native_irregular(tier="quick", seed=0):
         bad = bad or opens(m2, "%s: theme parts declared with an unknown content type" % dname, base)
         m2 = list(members) + [("ppt/unreferenced.bin", b"\x00\x01"), ("junk/readme.txt", b"hi"), ("ppt/slides/slide999.xml", b"<not-even-xml")]
         bad = bad or opens(m2, "%s: extra unreferenced members" % dname, base)
+        # a referenced, declared part whose payload is empty (an empty printer-settings blob): it is a part like any other
+        pres_rels = [i for i, (n, _) in enumerate(members) if n == "ppt/_rels/presentation.xml.rels"][0]
+        m2 = list(members) + [("ppt/printerSettings/printerSettingsEmpty.bin", b"")]
+        m2[pres_rels] = (members[pres_rels][0], members[pres_rels][1].replace(b"</Relationships>", b'<Relationship Id="rId991" Type="http://schemas.openxmlformats.org/officeDocument/2006/relationships/printerSettings" Target="printerSettings/printerSettingsEmpty.bin"/></Relationships>'))
+        m2[ci] = (members[ci][0], ct.replace(b"</Types>", b'<Default Extension="bin" ContentType="application/vnd.openxmlformats-officedocument.presentationml.printerSettings"/></Types>') if b'Extension="bin"' not in ct else ct)
+        bad = bad or opens(m2, "%s: a referenced part with an empty payload" % dname, base)
+        if not bad:
+            try:
+                prs_e = Presentation(io.BytesIO(_zip(m2)))
+                be = io.BytesIO()
+                prs_e.save(be)
+                if "ppt/printerSettings/printerSettingsEmpty.bin" not in zipfile.ZipFile(io.BytesIO(be.getvalue())).namelist():
+                    bad = "%s: a referenced part with an empty payload is gone after open and save" % dname
+            except Exception as e:
+                bad = "%s: a referenced part with an empty payload: %r" % (dname, e)
         m2 = [(n, re.sub(rb'<Relationship [^>]*core-properties[^>]*/>', b"", d) if n == "_rels/.rels" else d) for n, d in members if n != "docProps/core.xml"]
         bad = bad or opens(m2, "%s: no core properties" % dname, base)
         rec("C16.native[%s].unknown_type_extra_members_no_core_props" % dname, bad)
